@@ -84,6 +84,7 @@ def c01(ctx):
     RT.rule_state_owner(ctx, lin)
     RA.rule_no_skip(ctx, aks)
     RT.rule_value_fwd(ctx, lin)
+    RT.rule_window(ctx, lin)
     ctx.floor("qmin", 5)
     ctx.floor("cons", 3)
     ctx.floor("msum", 3)
@@ -112,6 +113,7 @@ def c05(ctx):
     RA.rule_no_skip(ctx, RA.add_kernels(F))
     RT.rule_observers(ctx, COUNTMIN)
     RT.rule_value_fwd(ctx, COUNTMIN)
+    RT.rule_window(ctx, COUNTMIN)
     ctx.floor("no-skip", 6)
     ctx.floor("qmin", 15)
     ctx.floor("cons", 9)
@@ -148,6 +150,8 @@ def c03(ctx):
     RT.rule_wrapper_once(ctx, hh)
     RT.rule_state_owner(ctx, hh)
     RT.rule_value_fwd(ctx, hh)
+    RT.rule_window(ctx, hh)
+    ctx.floor("window", 4)
     ctx.floor("keyid", 3)
     ctx.floor("bm-table", 8)
     ctx.floor("range", 20)
@@ -179,6 +183,12 @@ def c04(ctx):
     RT.rule_wrapper_once(ctx, hh)
     RT.rule_state_owner(ctx, hh)
     RA.rule_no_skip(ctx, [RH.hh_kernels(F)["add"]])
+    RT.rule_window(ctx, hh)
+    # "query(k, threshold) contains the key ... whenever the bound reaches the threshold": the answer must be fresh and unfiltered
+    RH.rule_cachekey(ctx)
+    RH.rule_filter(ctx)
+    RH.rule_topk(ctx)
+    RH.rule_mutators(ctx)
     ctx.floor("keyid", 3)
     ctx.floor("bm-table", 8)
     ctx.floor("keynorm", 4)
@@ -359,7 +369,7 @@ def c02(ctx):
     RA.rule_cover(ctx, [ks["merge"]])
     RA.rule_other_ro(ctx, [ks["merge"]])
     RT.rule_mergeguard(ctx, hll)
-    RT.rule_window(ctx)
+    RT.rule_window(ctx, hll)
     RT.rule_wrapper_once(ctx, hll)
     RT.rule_state_owner(ctx, hll)
     ctx.floor("nlz", 66)
@@ -422,6 +432,10 @@ def c06(ctx):
     RM.rule_batchconst(ctx)
     RM.rule_expo(ctx)
     RA.rule_logstep(ctx)
+    # "on every history the estimate is at least min(true, num_reserved+1)": the add raises every cell of the key to the
+    # stepped counter (cons, newcount) and steps below num_reserved are deterministic (logstep)
+    RA.rule_cons(ctx, [k for k in RA.add_kernels(facts_of(ctx)) if "log" in k.name])
+    RA.rule_newcount(ctx)
     RA.rule_bind(ctx, COUNTMIN[1:])
     ctx.floor("randtoken", 10)
     ctx.floor("batchconst", 7)
